@@ -56,6 +56,14 @@ var pieces = []piece{
 	{id: "${s}", kind: "expr-string", src: "${s}", raw: "${s}", val: "str", goExpr: "s"},
 	{id: "${f}", kind: "expr-float", src: "${f}", raw: "${f}", val: "1.5", goExpr: "strconv.FormatFloat(f, 'g', -1, 64)"},
 	{id: "${2.0}", kind: "expr-float-const", src: "${2.0}", raw: "${2.0}", val: "2", goExpr: "strconv.FormatFloat(2.0, 'g', -1, 64)"},
+	// numeric constants: strconv formatting must not lose digits or change the notation
+	{id: "${2.718281828459045}", kind: "expr-float-const", src: "${2.718281828459045}", raw: "${2.718281828459045}", val: "2.718281828459045", goExpr: "strconv.FormatFloat(2.718281828459045, 'g', -1, 64)"},
+	{id: "${1234.56789}", kind: "expr-float-const", src: "${1234.56789}", raw: "${1234.56789}", val: "1234.56789", goExpr: "strconv.FormatFloat(1234.56789, 'g', -1, 64)"},
+	{id: "${1e21}", kind: "expr-float-const", src: "${1e21}", raw: "${1e21}", val: "1e+21", goExpr: "strconv.FormatFloat(1e21, 'g', -1, 64)"},
+	{id: "${0.000001234}", kind: "expr-float-const", src: "${0.000001234}", raw: "${0.000001234}", val: "1.234e-06", goExpr: "strconv.FormatFloat(0.000001234, 'g', -1, 64)"},
+	{id: "${pi14}", kind: "expr-float-const", src: "${pi14}", raw: "${pi14}", val: "3.14159265358979", goExpr: "strconv.FormatFloat(pi14, 'g', -1, 64)"},
+	{id: "${1<<40}", kind: "expr-int-const", src: "${1<<40}", raw: "${1<<40}", val: "1099511627776", goExpr: "strconv.Itoa(1<<40)"},
+	{id: "${big}", kind: "expr-int", src: "${big}", raw: "${big}", val: "9007199254740993", goExpr: "strconv.Itoa(big)"},
 	{id: "${err}", kind: "expr-error", src: "${err}", raw: "${err}", val: "oops", goExpr: "err.Error()"},
 	{id: "${t(i)}", kind: traced}, // k-th occurrence in a literal is rendered as t(i), t(i*10), t(i*100)
 	{id: "$", kind: "trailing-$", src: "$", raw: "$", val: "$", lastOnly: true},
@@ -67,6 +75,9 @@ const prelude = `
 var i = 7
 var s = "str"
 var f = 1.5
+var big = 9007199254740993
+
+const pi14 = 3.14159265358979
 var err = errors.New("oops")
 var b = true
 
